@@ -55,7 +55,7 @@ Qed.
 Lemma unauthenticated_401 : forall cf rq,
   (forall u, snd (identity cf rq) <> Ok u) -> snd (identity cf rq) = Err 401 /\ handle cf rq = Status 401.
 Proof.
-  intros cf rq H. unfold handle.
+  intros cf rq H. unfold handle, dispatch.
   assert (E : snd (identity cf rq) = Err 401).
   { unfold identity in *. cbn [snd] in *.
     match goal with |- authenticate ?a ?b = _ => destruct (authenticate_cases a b) as [[u Hu]|He] end.
@@ -65,16 +65,13 @@ Proof.
 Qed.
 
 (* ------------------------------------------------------------------ authorisation *)
-Lemma authz_sound : forall cf rq t k,
-  handle cf rq = Touch t k ->
-  exists u, snd (identity cf rq) = Ok u /\
+Lemma dispatch_sound : forall cf u rq t k,
+  dispatch cf (Ok u) rq = Touch t k ->
   exists rn kc, resolve1 (cf_keys cf) (rq_key rq) = Some (rn, kc) /\ allowed u rn kc = true /\
                 t = k_token kc /\ t <> 0 /\ mem t (cf_tokens cf) = true /\
                 (k = rq_key rq \/ k = rn).
 Proof.
-  intros cf rq t k H. unfold handle in H.
-  destruct (snd (identity cf rq)) as [u|e|e]; [|discriminate|discriminate].
-  exists u. split; [reflexivity|].
+  intros cf u rq t k H. unfold dispatch in H.
   destruct (rq_ep rq); [| |discriminate|discriminate].
   - (* sign *)
     unfold serve_sign in H. unfold_gen.
@@ -98,12 +95,24 @@ Proof.
     + cbn [andb] in H. discriminate.
 Qed.
 
+Lemma authz_sound : forall cf rq t k,
+  handle cf rq = Touch t k ->
+  exists u, snd (identity cf rq) = Ok u /\
+  exists rn kc, resolve1 (cf_keys cf) (rq_key rq) = Some (rn, kc) /\ allowed u rn kc = true /\
+                t = k_token kc /\ t <> 0 /\ mem t (cf_tokens cf) = true /\
+                (k = rq_key rq \/ k = rn).
+Proof.
+  intros cf rq t k H. unfold handle in H.
+  destruct (snd (identity cf rq)) as [u|e|e] eqn:I; [|discriminate|discriminate].
+  exists u. split; [reflexivity|]. exact (dispatch_sound _ _ _ _ _ H).
+Qed.
+
 Lemma not_entitled_refused : forall cf rq u,
   snd (identity cf rq) = Ok u -> (rq_ep rq = EpSign \/ rq_ep rq = EpGetKey) ->
   ~ entitled (cf_keys cf) u (rq_key rq) ->
   handle cf rq = Status 403 \/ (rq_ep rq = EpSign /\ handle cf rq = Status 400 /\ (rq_key rq = 0 \/ rq_has_filename rq = false)).
 Proof.
-  intros cf rq u Hi Hep Hne. unfold handle. rewrite Hi.
+  intros cf rq u Hi Hep Hne. unfold handle, dispatch. rewrite Hi.
   assert (NA : forall rn kc, get_key (cf_keys cf) (rq_key rq) = Ok (rn, kc) -> allowed u rn kc = false).
   { intros rn kc G. apply get_key_spec in G. destruct G as [G Ht].
     destruct (allowed u rn kc) eqn:A; [|reflexivity].
@@ -157,7 +166,7 @@ Proof.
   { unfold identity, real_ip, rq'. cbn [rq_peer rq_peer_trusted rq_hops rq_tls rq_hdr].
     rewrite Ht. cbn. reflexivity. }
   split; [exact I|]. split.
-  - unfold handle. rewrite I. unfold serve_sign, serve_getkey, rq'. reflexivity.
+  - unfold handle, dispatch. rewrite I. unfold serve_sign, serve_getkey, rq'. reflexivity.
   - unfold identity, real_ip. rewrite Ht. reflexivity.
 Qed.
 
